@@ -31,6 +31,8 @@ func Run(args []string) error {
 		return runStress(args[1:])
 	case "slow":
 		return runSlow(args[1:])
+	case "sweep":
+		return runSweep(args[1:])
 	}
 	return fmt.Errorf("unknown mode %q", args[0])
 }
